@@ -17,8 +17,10 @@ def scenarios(tier):
          Scenario('vyukov-tok-cap1ish-K3', SRC, ['OSEL=1', 'NPUSH1=2', 'NPUSH2=1', 'NPOP2=1'], threads=2, K=3, unwind=4, cover=[1, 2], allow_unwound=True),
          Scenario('ms-lfrc-uptr-K2', SRC, ['OSEL=3', 'RECL=10', 'NPUSH1=1', 'NPUSH2=0'], threads=2, K=2, unwind=3, cover=[1, 2]),
          Scenario('ms-lfrc-uptr-2producers-K2', SRC, ['OSEL=3', 'RECL=10', 'NPUSH1=1', 'NPUSH2=1', 'NPOP2=1'], threads=2, K=2, unwind=3, cover=[1, 2])]
+    # two producers overshooting a full ramalhete node + consumer, then queue destruction (found F4; 20 min before DESIGN.md 10.6, now seconds)
+    s.append(Scenario('ramalhete-lfrc-uptr-K2', SRC, ['OSEL=5', 'RECL=10', 'NPUSH1=2', 'NPUSH2=1', 'NPOP2=1'], threads=2, K=2, unwind=3, cover=[1, 2]))
     if tier == 'thorough':
         s += [Scenario('nikolaev-bounded-uptr-K2', SRC, ['OSEL=4'], threads=2, K=2, unwind=4, cover=[1, 2], allow_unwound=True),
-              Scenario('ramalhete-lfrc-uptr-K2', SRC, ['OSEL=5', 'RECL=10', 'NPUSH1=2', 'NPUSH2=1', 'NPOP2=1'], threads=2, K=2, unwind=3, cover=[1, 2]),
+              Scenario('ramalhete-lfrc-uptr-K3', SRC, ['OSEL=5', 'RECL=10', 'NPUSH1=2', 'NPUSH2=1', 'NPOP2=1'], threads=2, K=3, unwind=3, cover=[1, 2]),
               Scenario('ms-lfrc-uptr-K3', SRC, ['OSEL=3', 'RECL=10', 'NPUSH1=2', 'NPUSH2=1', 'NPOP2=1'], threads=2, K=3, unwind=3, cover=[1, 2])]
     return s
